@@ -5,7 +5,7 @@ import json
 
 def gen_graph(rng, resnames, nmin=1, nmax=8, start=None, kinds=("lin", "tree", "ring"), labels=None):
     n = rng.randint(nmin, nmax)
-    start = rng.choice([1, 1, 1, 2, 5, 17]) if start is None else start
+    start = rng.choice([1, 1, 1, 2, 5, 17, 0]) if start is None else start
     nodes = [{"key": i, "resname": rng.choice(resnames), "resid": start + i} for i in range(n)]
     kind = rng.choice(kinds)
     edges = []
